@@ -17,7 +17,8 @@ CLAUSES = {
     "C04.forms.input": 20000,      # phased matrix == unphased projection == raw dosage array (every output)
     "C04.forms.perm": 15000,       # taxon permutation permutes rows and labels together, leaves population summaries alone
     "C04.forms.split": 4000,       # marker partition: partial predictions / genic variances add up, tables concatenate
-    "C04.forms.derived": 40000,   # inputs made by select/delete/adjoin/insert/concat/copy/remove/append: ploidy kept, every statistic right
+    "C04.forms.labels": 20000,    # optional taxa / variant label arrays (incl. vrnt_mask) change no statistic: labelled == unlabelled twin
+    "C04.forms.derived": 8000,   # inputs made by select/delete/adjoin/insert/concat/copy/remove/append: ploidy kept, every statistic right
     "C04.returns": 2000,          # arrays in any memory representation of the same values are accepted (no exception) ...
     "C04.labels": 15000,           # taxa, taxa_grp of the input and trait of the model on every output matrix
     "C04.stats.var": 7000,        # var_A, var_G (population variance of the values), var_a (genic)
@@ -38,6 +39,8 @@ RULE = ("model cases: seeded class-based genotype arrays (1-120 taxa incl. 49/98
         "with exact zeros and -0.0, all positive/negative/zero, single non-zero, non-zero only on fixed loci, 1e4 / 1e-4 magnitudes, "
         "per-trait mixtures; 1-4 traits; 1-3 fixed effects; additive and additive+dominance models, optional u_misc) presented as "
         "phased matrix, unphased projection and raw dosage array (int8/int64/float64), with and without taxa/taxa_grp/trait labels; "
+        "half of the cases carry random subsets (or all) of the optional variant labels chrgrp/phypos/name/genpos/xoprob/hapgrp/hapalt/"
+        "hapref and a vrnt_mask (all True, mixed, all False), and the labelled matrix is also compared with its unlabelled twin; "
         "in 35% of the cases every array handed over (coefficients, intercepts, genotype calls/dosages, covariates, responses; training "
         "sets of fit_numpy) is in another memory representation of the same values: non-native byte order, Fortran order, strided / "
         "offset view of a larger buffer, negative strides, read-only, zero-stride broadcast, ndarray subclass; "
@@ -386,10 +389,12 @@ def derive(g, op, F, form, mat, taxa, taxa_grp, vmeta, ploidy):
     matV = g.integers(0, 2, (ploidy, n, p2)).astype("int8")
     taxaT = None if taxa is None else numpy.array(["x%03d" % i for i in range(n2)], dtype=object)
     grpT = None if taxa_grp is None else g.integers(0, 3, n2).astype("int64")
-    vmetaV = {}
-    if vmeta:
-        vmetaV = {"vrnt_chrgrp": numpy.full(p2, 9, dtype="int64"), "vrnt_phypos": numpy.arange(1, p2 + 1, dtype="int64"),
-                  "vrnt_name": numpy.array(["v%d" % i for i in range(p2)], dtype=object)}
+    gen = {"vrnt_chrgrp": lambda: numpy.full(p2, 9, dtype="int64"), "vrnt_phypos": lambda: numpy.arange(1, p2 + 1, dtype="int64"),
+           "vrnt_name": lambda: numpy.array(["v%d" % i for i in range(p2)], dtype=object),
+           "vrnt_genpos": lambda: 100.0 + numpy.arange(p2, dtype=float), "vrnt_xoprob": lambda: numpy.full(p2, 0.25),
+           "vrnt_hapgrp": lambda: numpy.full(p2, 7, dtype="int64"), "vrnt_hapalt": lambda: numpy.array(["A"] * p2, dtype=object),
+           "vrnt_hapref": lambda: numpy.array(["T"] * p2, dtype=object), "vrnt_mask": lambda: g.random(p2) < 0.5}
+    vmetaV = {k: gen[k]() for k in vmeta}
 
     def mk(m3, tx, gr, vm):
         return mk_phased(m3, tx, gr, vm) if form == "phased" else mk_unphased(O.dosage(m3), ploidy, tx, gr, vm)
@@ -534,14 +539,19 @@ def derived_inputs(ctx, g, coords, wit0, kind, ploidy, mat, taxa, taxa_grp, vmet
                   ("var_A", lambda: M.var_A(D), vA, O.tol(S2)), ("var_G", lambda: M.var_G(D), O.popvar(eg), O.tol(S2)),
                   ("var_a", lambda: M.var_a(D), va, O.tol(S2)), ("bulmer", lambda: M.bulmer(D), bul, bt),
                   ("fafreq", lambda: M.fafreq(D), tabs["fafreq"], O.tol(1.0)), ("dafreq", lambda: M.dafreq(D), tabs["dafreq"], O.tol(1.0))]
+        groups = {"predicted values": ["gebv", "gegv"], "variances and Bulmer ratio": ["var_A", "var_G", "var_a", "bulmer"],
+                  "allele counts, frequencies and flags": ["fafreq", "dafreq"] + [nm for nm in TABLES if nm not in ("fafreq", "dafreq")]}
+        bad = {k: [] for k in groups}
+        seen = {k: 0 for k in groups}
+        grp_of = {nm: k for k, v in groups.items() for nm in v}
         for nm, fn, e, tl in floats:
             try:
                 got = fn()
             except Exception as ex:
                 ctx.raised("%s on derived input" % defsite(M, nm), ex); continue
-            ok, _ = fclose(got, e, tl)
-            ctx.check("C04.forms.derived", ok, site, "%s on the derived matrix == definition on the raw calls it holds" % nm, pcl,
-                      witness=dict(w, output=nm, got=brief(got), expected=brief(e)), coords=coords)
+            seen[grp_of[nm]] += 1
+            if not fclose(got, e, tl)[0]:
+                bad[grp_of[nm]].append({"output": nm, "got": brief(got), "expected": brief(e)})
         for nm in TABLES:
             if nm in ("fafreq", "dafreq"):
                 continue
@@ -549,8 +559,13 @@ def derived_inputs(ctx, g, coords, wit0, kind, ploidy, mat, taxa, taxa_grp, vmet
                 got = getattr(M, nm)(D)
             except Exception as ex:
                 ctx.raised("%s on derived input" % defsite(M, nm), ex); continue
-            ctx.check("C04.forms.derived", exact(got, tabs[nm]), site, "%s on the derived matrix == definition on the raw calls it holds" % nm, pcl,
-                      witness=dict(w, output=nm, got=brief(got), expected=brief(tabs[nm])), coords=coords)
+            seen[grp_of[nm]] += 1
+            if not exact(got, tabs[nm]):
+                bad[grp_of[nm]].append({"output": nm, "got": brief(got), "expected": brief(tabs[nm])})
+        for k in groups:
+            if seen[k]:
+                ctx.check("C04.forms.derived", not bad[k], site, "%s on the derived matrix == definitions on the raw calls it holds" % k, pcl,
+                          witness=dict(w, failing=bad[k][:6]), coords=coords)
         # labels travel with the rows through the operation and through the model
         try:
             etaxa = None if taxa is None else numpy.concatenate([taxa, numpy.array(["x%03d" % i for i in range(matT.shape[1])], dtype=object)])[rows]
@@ -596,6 +611,29 @@ def case_model(ctx, c):
         vmeta = {"vrnt_chrgrp": numpy.sort(g.integers(1, 4, p)).astype("int64"),
                  "vrnt_phypos": numpy.arange(1, p + 1, dtype="int64") * 7,
                  "vrnt_name": numpy.array(["m%d" % i for i in range(p)], dtype=object)}
+    # every optional variant label array (own random stream): none of them may change a statistic or a prediction
+    gl = ctx.rng("vlab", c)
+    mkcls = "no vrnt_mask"
+    if gl.random() < 0.5:
+        opt = {"vrnt_chrgrp": lambda: numpy.sort(gl.integers(1, 4, p)).astype("int64"),
+               "vrnt_phypos": lambda: numpy.arange(1, p + 1, dtype="int64") * 7,
+               "vrnt_name": lambda: numpy.array(["m%d" % i for i in range(p)], dtype=object),
+               "vrnt_genpos": lambda: numpy.cumsum(gl.uniform(0.001, 0.3, p)),
+               "vrnt_xoprob": lambda: gl.uniform(0, 0.5, p),
+               "vrnt_hapgrp": lambda: numpy.sort(gl.integers(0, 4, p)).astype("int64"),
+               "vrnt_hapalt": lambda: numpy.array([str(gl.choice(["A", "C"])) for _ in range(p)], dtype=object),
+               "vrnt_hapref": lambda: numpy.array([str(gl.choice(["G", "T"])) for _ in range(p)], dtype=object)}
+        full = gl.random() < 0.4
+        for k, mkv in opt.items():
+            if k not in vmeta and (full or gl.random() < 0.35):
+                vmeta[k] = mkv()
+        mk_ = str(gl.choice(["none", "all-True", "mixed", "mixed", "all-False"]))
+        if mk_ != "none":
+            msk = numpy.ones(p, dtype=bool) if mk_ == "all-True" else (numpy.zeros(p, dtype=bool) if mk_ == "all-False" else gl.random(p) < 0.5)
+            if mk_ == "mixed" and p > 1 and (msk.all() or not msk.any()):
+                msk[0] = not msk[1]
+            vmeta["vrnt_mask"] = msk
+            mkcls = "vrnt_mask all True" if bool(msk.all()) else "vrnt_mask with False entries"
     adt = str(g.choice(["int8", "int64", "float64"]))
     mcls = "additive" if kind == "A" else "additive+dominance"
     icls_in = mcls if kind == "A" else "%s/%s" % (mcls, "diploid" if ploidy == 2 else "ploidy 1 or 4")
@@ -614,8 +652,8 @@ def case_model(ctx, c):
     KEEP_REPR[0] = rcls != "native"
     R = (lambda a: represent(gr, a, rcls))
     wit_r = {"case": c, "array_representation": rcls}
-    if rcls != "native":
-        icls_in += "/" + rcls
+    # (representation and label classes are carried by the keys of C04.returns / C04.forms.labels and by every witness, not by
+    #  the input class of the oracle clauses: one defect must not fan out into one key per representation)
 
     def build(what, make_repr, make_native, site):
         """Construct with the chosen representation; a representation that is refused while native arrays of the same values
@@ -798,6 +836,32 @@ def case_model(ctx, c):
                     ok, _ = fclose(b, a, ftol[name])
                 ctx.check("C04.forms.input", ok, site, "%s form == phased form" % f, zcls if name == "bulmer" else icls_in,
                           witness=dict(wit0, output=name, phased=brief(a), other=brief(b)), coords=coords)
+    # ---------------- optional labels change nothing: the labelled matrix against its unlabelled twin (bare calls only)
+    if vmeta or taxa is not None:
+        tform = "phased" if gl.random() < 0.4 else "unphased"
+        lcl = "%s/%s, %s" % (tform, mkcls, "other optional variant labels" if [k for k in vmeta if k != "vrnt_mask"] else "no other variant labels")
+        try:
+            bare = mk_phased(mat, None, None, {}) if tform == "phased" else mk_unphased(dos, ploidy, None, None, {})
+            rb = collect(model, bare, tform + "/unlabelled twin", ploidy, True, X, Yobj if score_ok else None, has_misc, held)
+        except Exception as e:
+            ctx.raised("construct unlabelled twin", e); rb = {}
+        for name, gb in rb.items():
+            ref = res[tform].get(name)
+            site = "TrueBreedingValue.estimate" if name == "tbv" else defsite(model, name)
+            if ref is None or (isinstance(ref, Exception) and isinstance(gb, Exception)):
+                continue
+            if isinstance(ref, Exception) or isinstance(gb, Exception):
+                ctx.violation("C04.forms.labels", site, "raises with or without optional labels only", lcl,
+                              witness=dict(wit0, output=name, labelled=brief(ref), unlabelled=brief(gb)), coords=coords)
+                ctx.ok("C04.forms.labels"); continue
+            a_ = ref[0] if name in ROWS else ref
+            b_ = gb[0] if name in ROWS else gb
+            if name in TABLES and name not in ("fafreq", "dafreq"):
+                ok = exact(a_, b_)
+            else:
+                ok, _ = fclose(a_, b_, ftol[name])
+            ctx.check("C04.forms.labels", ok, site, "labelled matrix == its unlabelled twin", lcl,
+                      witness=dict(wit0, output=name, labels=sorted(vmeta), labelled=brief(a_), unlabelled=brief(b_)), coords=coords)
     # ---------------- *_numpy entry points (raw arrays only)
     Zf = dos.astype(float)
     Zmisc = g.normal(size=(n, u_misc.shape[0])) if has_misc else numpy.zeros((n, 0))
